@@ -193,6 +193,8 @@ def make_ops(spec, initial, counter):
             ops.append({"kind": "set", "name": OTHER, "new": new})
         elif s == "list":
             ops.append({"kind": "list", "name": None})
+        elif s == "rm-other":
+            ops.append({"kind": "remove_if_equals", "name": OTHER, "old": initial.get(OTHER, (None, None))[0] or ZERO})
         elif s == "symref-other":
             ops.append({"kind": "set_symbolic_ref", "name": OTHER, "target": R})
         else:
@@ -497,6 +499,13 @@ def main(ctx):
             for io in ("loose", "both"):
                 cases.append({"kind": "refs", "seed": "%d/sym/%s/%s/%s" % (ctx.seed, acts, init, io), "actors": acts, "init": init, "init_other": io,
                               "other_same_value": True, "max_runs": ctx.budget(300, 4000), "bound": 2 if not ctx.thorough else 3})
+    # one handle rewrites packed-refs for another ref and then acts on R from what it remembers of that file, while a second
+    # process changes R's packed entry in between (caches tagged with the wrong file generation)
+    for acts in ([["rm-other", "cas"], ["rm"]], [["rm-other", "read"], ["rm"]], [["rm-other", "add"], ["rm"]], [["rm-other", "cas"], ["cas"]],
+                 [["rm-other", "list"], ["rm"]], [["read", "rm-other", "cas"], ["rm"]]):
+        for init in ("packed", "both"):
+            cases.append({"kind": "refs", "seed": "%d/rmo/%s/%s" % (ctx.seed, acts, init), "actors": acts, "init": init, "init_other": "packed",
+                          "max_runs": ctx.budget(300, 4000), "bound": 2 if not ctx.thorough else 3})
     triples = [[["cas"], ["cas"], ["cas"]], [["pack"], ["set"], ["read"]], [["rm"], ["pack"], ["read"]], [["add"], ["add"], ["pack"]], [["cas"], ["pack"], ["rm"]]]
     for acts in triples:
         for init in ("loose", "both"):
